@@ -188,5 +188,25 @@ let seq_case (tree : string) (ops : string) (obs : string) : string * string * b
       if got = "tbl=0" then "ok" (* stale table in the case line: reported as a disagreement, not a violation *)
       else Printf.sprintf "BAD:op%d got %s want %s" !i got want
     end in
+  (* times returned to the (single) caller never decrease.  With an explicit start everything lies
+     in the past of the clock; after a self-start the caller of this harness does not wait for the
+     token times, so a token "now" of an unlimited part can precede an earlier (future) token. *)
+  let v =
+    if v <> "ok" then v
+    else begin
+      let last = ref None and dec = ref false and nowait = ref false in
+      List.iter (fun f ->
+        let f = if String.length f > 0 && f.[String.length f - 1] = '!' then String.sub f 0 (String.length f - 1) else f in
+        if String.length f > 1 && f.[0] = 'N' then begin
+          if f = "Nu" then begin
+            (match !last with Some t when (not explicit) && ZT.gt t ZT.zero -> dec := true; nowait := true | _ -> ())
+          end else begin
+            let t = ZT.of_string (List.hd (String.split_on_char ':' (String.sub f 1 (String.length f - 1)))) in
+            (match !last with Some t0 when ZT.lt t t0 -> dec := true | _ -> ());
+            last := Some t
+          end
+        end) (split_blank obs);
+      if !nowait then "BAD:nowait-time-decreases" else if !dec then "BAD:time-decreases" else "ok"
+    end in
   (pred, v, nparts >= 2 && String.contains ops 'N')
 
